@@ -121,11 +121,17 @@ async fn _validate_cas_object_from_async_read<R: AsyncRead + Unpin>(
         });
 
         // next offset is computed with: previous offset + length of chunk header + chunk compressed_length
-        compressed_chunk_boundary_offsets.push(
-            compressed_chunk_boundary_offsets.last().unwrap_or(&0)
-                + size_of::<CASChunkHeader>() as u32
-                + chunk_compressed_len as u32,
-        );
+        // (chunk boundary offsets are u32 in the xorb format; a stream that does not fit is rejected)
+        let Some(next_boundary_offset) = compressed_chunk_boundary_offsets
+            .last()
+            .unwrap_or(&0)
+            .checked_add(size_of::<CASChunkHeader>() as u32 + chunk_compressed_len as u32)
+        else {
+            return Err(CasObjectError::FormatError(anyhow!(
+                "chunk boundary offsets exceed the 32-bit range of the xorb format"
+            )));
+        };
+        compressed_chunk_boundary_offsets.push(next_boundary_offset);
     };
 
     // validating footer against chunks contents
